@@ -104,7 +104,10 @@ CLAIMED = {
              "EVERY history of application writes and cycles, for every timing of the terminal (oracle: init reaction, accept delay, announcements), both "
              "directions active at once, proved by induction over the event list (exhaustive case analysis of one cycle inside Coq). Tied to serial.Serial by "
              "running the real device (real pipes, real TerminalVar/PacketVar descriptors on a frame buffer) against a Python twin of the modelled terminal "
-             "and comparing the complete state after every event.",
+             "and comparing the complete state after every event. The theorems are about one channel; C28_EL6002_channels_independent / C28_EL6022_channels_independent "
+             "/ C28_channel_layout carry them to a terminal with both channels in use: on the descriptor layout REGENERATED from terminals.py on every run "
+             "(Generated/SerialLayout.v; compared with the live descriptor objects) a write of any variable of one channel changes no byte of any variable of the "
+             "other, and the strings carry exactly the model's chunk size. The differential runs use the real EL6002 with traffic on both channels at once.",
         note=TB + "Modelled: Serial.update, os.read(...,22) on the out pipe, the EL6002 handshake (Dev/Serial.v `react`: the terminal never re-announces before an "
              "acknowledge and hands nothing over before initialisation completed - this terminal model is trusted). Every cyclic frame is assumed to come back.",
         technique="Coq invariant proof over all histories + state-by-state differential correspondence",
